@@ -159,15 +159,17 @@ def _convolve_model_dir_2(model_dir, filters, overwrite=False, memmap=True):
     # Loop over apertures
     for i_ap in ProgressBar(range(sed_cube.n_ap)):
 
-        sed_val = sed_cube.val[:, i_ap, :]
-        sed_unc = sed_cube.unc[:, i_ap, :]
+        # Work with bare values here - the conversion to mJy is done
+        # explicitly with val_factor and unc_factor below
+        sed_val = sed_cube.val[:, i_ap, :].value
+        sed_unc = sed_cube.unc[:, i_ap, :].value
 
         for i, f in enumerate(binned_filters):
 
             response = f.response.astype(sed_val.dtype)
 
-            fluxes[i].flux[:, i_ap] = np.sum(sed_val * response, axis=1) * val_factor
-            fluxes[i].error[:, i_ap] = np.sqrt(np.sum((sed_unc * response) ** 2, axis=1)) * unc_factor
+            fluxes[i].flux[:, i_ap] = np.sum(sed_val * response, axis=1) * val_factor * u.mJy
+            fluxes[i].error[:, i_ap] = np.sqrt(np.sum((sed_unc * response) ** 2, axis=1)) * unc_factor * u.mJy
 
     for i, f in enumerate(binned_filters):
 
